@@ -31,7 +31,11 @@ META = dict(
                "correspondence (toy graphs as real LinkedVariables, exact integers/inf/NaN); WF g is a hypothesis of the generic theorems, PROVED from C15's theorems for every graph built by the "
                "modelled DAG constructor (C02_full_revert_built, C02_pop_step_built) and recomputed by wf_b on every graph of the tie; "
                "F_mix (row-wise node functions) is PROVED from C07's op-kind semantics for every op-kind and any number of parents "
-               "(C02_F_mix_opkinds) and for one-parent entry-wise toy functions, and the closure condition on the reads follows from the "
+               "(C02_F_mix_opkinds), for one-parent entry-wise toy functions and, on n-d values (per-individual values with a trailing shape, plain or weighted, "
+               "right_broadcasting both ways: State/StateNdExec.v), for the whole entry-wise toy vocabulary incl. multi-parent functions of weighted parents "
+               "(C02_partial_revert_nd); what revert(subset, right_broadcasting) does to such a value — rows, last-axis entries, refusals, the shape-changing "
+               "calls torch accepts outside the contract — is proved (C02_nd_*) and compared with 1 588 directed calls on real states inside Coq; "
+               "known finding: a side without weight takes the other side's weight (C02_one_sided_weight_refuted); and the closure condition on the reads follows from the "
                "well_typed checker (C02_partial_revert_well_typed, C02_ind_step_well_typed: docs/Compose.md); for other node functions "
                "F_mix stays a hypothesis, validated by execution on multi-parent toy graphs and, bit-for-bit, on the real model graphs; "
                "is_variable_set on a derived variable is exempt from 'as if never proposed' (it reports cache content); the "
@@ -56,7 +60,7 @@ OBLIGATIONS = [
     "C02_nd_select_rows", "C02_nd_weighted_select_rows", "C02_nd_last_axis", "C02_nd_refused_bad_shapes", "C02_nd_refused_by_torch",
     "C02_nd_contract_needs_fit", "C02_nd_contract_is_torch", "C02_nd_contract_keeps_shape", "C02_nd_select_examples",
     # F_mix proved for the n-d toy vocabulary (multi-parent entry-wise functions, weighted parents): no hypothesis on node functions
-    "C02_partial_revert_nd", "C02_one_sided_weight_refuted",
+    "C02_partial_revert_nd", "C02_partial_revert_nd_rows", "C02_one_sided_weight_refuted",
 ]
 
 HEADER = ("From Coq Require Import ZArith List Bool.\n"
